@@ -293,6 +293,17 @@ func (g *G) lzLock(p *Value, pos token.Pos, read bool, desc string) {
 			fmt.Sprintf("%s locks %s at %s while this invocation already holds it (locked at %s)", g.rootName(), desc, g.vm.posStr(pos), g.vm.posStr(lz.lockPos[p])), g.vm.posStr(pos), nil)
 		panic(pathAbort{kind: "CUT", msg: "self-deadlock"})
 	}
+	// lock-order edges: every mutex this invocation currently holds -> the one being acquired
+	for q, d := range lz.delta {
+		if d >= 1 && q != p {
+			g.vm.ex.noteLockEdge(lz.lockDesc[q], desc, g.rootName(), g.vm.posStr(lz.lockPos[q]), g.vm.posStr(pos))
+		}
+	}
+	for q, d := range lz.rdelta {
+		if d >= 1 && q != p {
+			g.vm.ex.noteLockEdge(lz.lockDesc[q], desc, g.rootName(), g.vm.posStr(lz.lockPos[q]), g.vm.posStr(pos))
+		}
+	}
 	if read {
 		lz.rdelta[p]++
 	} else {
